@@ -48,6 +48,8 @@ def conv_form(ret):
 
 
 def run(chk, repo, tier):
+    from .common import no_hidden_state
+    no_hidden_state(chk, repo, 'C19')
     chk.clause('C19-a', 'the transfer function has the axes of fft2(img) for every image shape', 3)
     chk.clause('C19-b', 'results are moduli (never negative)', 3)
     chk.clause('C19-c', 'output = |ifft2(fft2(img) * kernel)| with a kernel that depends on the image shape only', 3)
@@ -59,6 +61,18 @@ def run(chk, repo, tier):
 
     from . import common
     common.shape_scan(chk, repo, 'C19-s', ['detector', 'convolvable'])
+    chk.clause('C19-g', 'the smear direction is drawn at random only when no angle was given (angle is None), '
+               'otherwise it is the requested angle', 2)
+    fs, sp, _ = analyse(repo, 'convolvable.smear')
+    rnd = [p for p in returns(sp) if any(is_app(a, 'random.uniform') for a in nf.value_atoms(p.ret))]
+    det_ = [p for p in returns(sp) if p not in rnd]
+    want_c = nf.app('is', S('angle'), nf.Poly.atom(('val', nf.NONE)))
+    g_ok = len(rnd) == 1 and len(det_) == 1 and [(c, pol) for c, pol, _ in rnd[0].conds] == [(want_c, True)]
+    chk.ob('C19-g', 'D-guard', fs.key, 'random direction exactly when angle is None', g_ok,
+           'random path taken when ' + '; '.join(conds_str(p) for p in rnd) + ' (a truthiness test would also discard angle=0)',
+           fs.loc())
+    a_ok = bool(det_) and all(any(is_app(a, 'deg2rad') and a[2][0] == S('angle') for a in nf.value_atoms(p.ret)) for p in det_)
+    chk.ob('C19-g', 'D-flow', fs.key, 'a given angle (degrees) is what the kernel is rotated by', a_ok, '', fs.loc())
     from ..effects import doc_param_kinds
     ish = declare_2d('img')[('sym', 'img')]
     for key in BLURS:
